@@ -348,6 +348,7 @@ func checkC19(ctx *Ctx, r *Report, tier string) {
 	checkDCV2(ctx, r)
 	checkVoxelTiling(ctx, r)
 	checkDistanceCulling(ctx, r)
+	checkVertexLockBounds(ctx, r)
 	checkPowerOfTwo(ctx, r)
 	checkWarnOnceBlocks(ctx, r)
 	n := 0
@@ -1512,4 +1513,92 @@ func checkWarnOnceBlocks(ctx *Ctx, r *Report) {
 		r.check("K11", "render/dc|no-warn-once-blocks", 0, true, "no warn-once blocks")
 	}
 	r.floor("K11", 1)
+}
+
+// checkVertexLockBounds (K12): with vertex locking on, a QEF solution outside its own cell is
+// replaced by the mass point. "Its own cell" is the world image of [minOffset, minOffset + size]
+// on each axis. Decided on the closed form of dcBoundVertexPosition: the solution is compared
+// below with W(minOffset) and above with W(minOffset + size), W the lattice-to-world map of
+// relToSDF - an upper bound taken at the octree's (not the node's) far corner never fires and
+// lets vertices leave the cell, the "within one cell of the surface" clause with them.
+func checkVertexLockBounds(ctx *Ctx, r *Report) {
+	fn := ctx.ssaFunc("render/dc", "dcBoundVertexPosition")
+	rel := ctx.ssaFunc("render/dc", "(*dcOctree).relToSDF")
+	key := "dcBoundVertexPosition|bounds-are-the-node's-own-cell"
+	if fn == nil || rel == nil {
+		r.undecided("K12", key, 0, "dcBoundVertexPosition or relToSDF not found")
+		return
+	}
+	ev := newEval(ctx, "MassPoint")
+	res, _ := ev.evalRoot(fn)
+	evr := newEval(ctx)
+	wres, _ := evr.evalRoot(rel)
+	W := pointTerms(wres, 3)
+	out := pointTerms(res, 3)
+	if W == nil || out == nil {
+		r.undecided("K12", key, fn.Pos(), "the function or the lattice-to-world map is not a closed form")
+		return
+	}
+	leaf, q := paramName(fn, 1), paramName(fn, 2)
+	idx := paramName(rel, 2)
+	world := func(ax int, off *Term) *Term {
+		t := substAtoms(W[ax], map[string]*Term{idx + "." + axes3[ax]: off})
+		t = rebuild(t, func(x *Term) *Term {
+			if x.Op == "a" && strings.HasPrefix(x.S, paramName(rel, 0)+".") {
+				return A(leaf + strings.TrimPrefix(x.S, paramName(rel, 0)))
+			}
+			return nil
+		})
+		// the SDF parameter carries a different name in the two functions
+		return rebuild(t, func(x *Term) *Term {
+			if x.Op == "a" && strings.HasPrefix(x.S, paramName(rel, 1)+".") {
+				return A(paramName(fn, 0) + strings.TrimPrefix(x.S, paramName(rel, 1)))
+			}
+			if x.Op == "call" && strings.HasPrefix(x.S, paramName(rel, 1)+".") {
+				return &Term{Op: "call", S: paramName(fn, 0) + strings.TrimPrefix(x.S, paramName(rel, 1)), Args: x.Args}
+			}
+			return nil
+		})
+	}
+	var cmps []*Term
+	for _, o := range out {
+		cmps = append(cmps, findSub(o, func(x *Term) bool { return x.Op == "cmp" && len(x.Args) == 2 })...)
+	}
+	bad := ""
+	nB := 0
+	for ax := 0; ax < 3; ax++ {
+		qa := q + "." + axes3[ax]
+		lo := world(ax, A(leaf+".minOffset."+axes3[ax]))
+		hi := world(ax, Add(A(leaf+".minOffset."+axes3[ax]), A(leaf+".size")))
+		var gotLo, gotHi *Term
+		for _, c := range cmps {
+			a, b, op := c.Args[0], c.Args[1], c.S
+			if b.Key() == qa {
+				a, b = b, a
+				op = map[string]string{"<": ">", ">": "<", "<=": ">=", ">=": "<="}[op]
+			}
+			if a.Key() != qa {
+				continue
+			}
+			switch op {
+			case "<", "<=":
+				gotLo = b
+			case ">", ">=":
+				gotHi = b
+			}
+		}
+		if gotLo == nil || gotHi == nil {
+			bad += fmt.Sprintf(" axis %s: the solution is not compared with both ends of the cell;", axes3[ax])
+			continue
+		}
+		nB += 2
+		if !equalRat(stripConv(gotLo), stripConv(lo)) {
+			bad += fmt.Sprintf(" axis %s: lower bound %s is not W(minOffset);", axes3[ax], shortKey(gotLo.Key(), 120))
+		}
+		if !equalRat(stripConv(gotHi), stripConv(hi)) {
+			bad += fmt.Sprintf(" axis %s: upper bound %s is not W(minOffset + size);", axes3[ax], shortKey(gotHi.Key(), 120))
+		}
+	}
+	r.check("K12", key, fn.Pos(), bad == "", fmt.Sprintf("%d bounds compared as rational identities with the world image of the node's lattice cell;%s", nB, bad))
+	r.floor("K12", 1)
 }
